@@ -125,7 +125,10 @@ func Verif_C20_D3_ByteMutationsConcrete() {
 }
 
 // Verif_C20_D3_ByteMutationsSymbolic: one (thorough: two) byte(s) at chosen
-// positions replaced by arbitrary bytes.
+// positions replaced by arbitrary bytes. (Two symbolic digits in the size field make
+// the size a value with up to 100 feasible values that strconv has to format.)
+//
+// symgo: maxconcretize=260
 func Verif_C20_D3_ByteMutationsSymbolic() {
 	bases := verifC20Bases()
 	base := bases[vnd.Choose(len(bases))]
